@@ -581,7 +581,7 @@ func (f *STFS) OpenFile(name string, flag int, perm os.FileMode) (afero.File, er
 		return nil, config.ErrIsDirectory
 	}
 
-	return NewFile(
+	file := NewFile(
 		f.readOps,
 		f.writeOps,
 
@@ -600,7 +600,16 @@ func (f *STFS) OpenFile(name string, flag int, perm os.FileMode) (afero.File, er
 
 		f.onHeader,
 		f.log,
-	), nil
+	)
+
+	// Truncation takes effect when the file is opened, not on the first write
+	if flags.Truncate && flags.Write && hdr.Typeflag != tar.TypeDir && hdr.Size > 0 {
+		if err := file.enterWriteMode(); err != nil {
+			return nil, err
+		}
+	}
+
+	return file, nil
 }
 
 func (f *STFS) Remove(name string) error {
